@@ -618,6 +618,11 @@ func isRedactableFieldPatternInArray(arr []any) bool {
 }
 
 func redactArrayValuesWithKey(parentKey string, arr []any, redactFieldNames bool, isSearchStage bool, isSelectivelyRedactable bool, keyPath []string) []any {
+	// scalars in the array are classified (and, in selective mode, matched) by the full key path down to the array
+	scalarPath := keyPath
+	if len(scalarPath) == 0 {
+		scalarPath = []string{parentKey}
+	}
 	for i, item := range arr {
 		switch itemTyped := item.(type) {
 		case *orderedmap.OrderedMap[string, any]:
@@ -637,7 +642,7 @@ func redactArrayValuesWithKey(parentKey string, arr []any, redactFieldNames bool
 						arr[i] = item
 					}
 				} else {
-					arr[i] = redactScalarValue([]string{parentKey}, item, isSearchStage, isSelectivelyRedactable)
+					arr[i] = redactScalarValue(scalarPath, item, isSearchStage, isSelectivelyRedactable)
 				}
 			}
 		}
